@@ -1405,6 +1405,29 @@ impl<'a> Visitor<'a, '_, Error> for JSONValidator<'a> {
           }
         }
       }
+      (Type2::IntValue { value: l, .. }, Type2::UintValue { value: u, .. }) => {
+        // A negative lower bound with a non-negative upper bound (e.g. -1..5)
+        let (l, u) = (*l as i128, *u as i128);
+        match &self.json {
+          Value::Number(n) => match json_integer(n) {
+            Some(i) if l <= i && if is_inclusive { i <= u } else { i < u } => {}
+            _ => self.add_error(format!(
+              "expected integer to be in range {} <= value {} {}, got {}",
+              l,
+              if is_inclusive { "<=" } else { "<" },
+              u,
+              self.json
+            )),
+          },
+          _ => {
+            self.add_error(format!(
+              "invalid cddl range. value must be an integer type. got {}",
+              self.json
+            ));
+            return Ok(());
+          }
+        }
+      }
       _ => {
         self.add_error(
           "invalid cddl range. upper and lower values must be either integers or floats"
